@@ -28,6 +28,7 @@ import (
 	"github.com/blinklabs-io/gouroboros/ledger/alonzo"
 	"github.com/blinklabs-io/gouroboros/ledger/babbage"
 	"github.com/blinklabs-io/gouroboros/ledger/conway"
+	"github.com/blinklabs-io/gouroboros/ledger/dijkstra"
 	"github.com/blinklabs-io/gouroboros/ledger/mary"
 	"github.com/blinklabs-io/gouroboros/ledger/common"
 	"github.com/blinklabs-io/gouroboros/ledger/shelley"
@@ -157,8 +158,10 @@ var g8Eras = map[string]g8Era{
 	"alonzo":  {true, ledger.BlockTypeAlonzo, 4, 5},
 	"babbage": {false, ledger.BlockTypeBabbage, 4, 7},
 	"conway":  {false, ledger.BlockTypeConway, 4, 9},
+	// a Dijkstra block is [header, block_body]: one hashed body element
+	"dijkstra": {false, ledger.BlockTypeDijkstra, 1, 12},
 }
-var g8EraNames = []string{"shelley", "allegra", "mary", "alonzo", "babbage", "conway"}
+var g8EraNames = []string{"shelley", "allegra", "mary", "alonzo", "babbage", "conway", "dijkstra"}
 
 func g8TpraosOnly(t string) bool {
 	return t == "nonceProof" || t == "nonceOut" || t == "nonceProofLen" || t == "nonceOutLen"
@@ -411,6 +414,8 @@ func runC40(op string) string {
 		case *babbage.BabbageBlockHeader:
 			bb = hh
 		case *conway.ConwayBlockHeader:
+			bb = &hh.BabbageBlockHeader
+		case *dijkstra.DijkstraBlockHeader:
 			bb = &hh.BabbageBlockHeader
 		}
 		if sb != nil {
